@@ -531,3 +531,13 @@ def rec_in_bounds_i(r, t):
     if r._end_point is not None:
         ok = ok and t <= instant(r._end_point)
     return ok
+
+
+def d_same_fields(a, b):
+    """Two Durations hold the same component values (not merely equal lengths)."""
+    if a._weeks is not None or b._weeks is not None:
+        return (a._weeks is not None and b._weeks is not None and a._weeks == b._weeks
+                and a._days is None and b._days is None)
+    return (a._years == b._years and a._months == b._months and a._days == b._days
+            and a._hours == b._hours and a._minutes == b._minutes
+            and a._seconds == b._seconds)
